@@ -1,7 +1,9 @@
 import Dasp.Driver.Loop
+import Dasp.Driver.Sinc
 open Dasp.Driver
 
--- stub: replaced when property C18 is wired in
 def main : IO Unit := runDriver fun
+  | "sinc" :: rest => Sn.sincLine rest
+  | "sconv" :: rest => Sn.sconvLine rest
   | [] => ""
   | _ => "bad-op"
